@@ -11,7 +11,17 @@ shared index (skip list, B-tree; three key types) while one of them runs ordered
 sentinel entries that are never touched; invoke / return events ordered by a shared atomic counter; TLC
 (MultimapHistoryTrace) decides with silent linearization steps whether the history is explainable:
 point operations atomic, scans in key order, each entry once, containing every entry present throughout
-the scan (the sentinels) and nothing that was never present during it."""
+the scan (the sentinels) and nothing that was never present during it.
+Mechanism level (spec/SkipList, L1): the skip list's latch protocol - FindNode with latch coupling and the
+"go backward" case of Remove, validateNoChangeAndGetLock, node split, node removal, the iterator, update
+counters, page ids handed out again - is model-checked (structure invariants, lookups / removals / scans
+against the abstract map at their linearization steps, deadlock freedom) for two and three threads; each
+defect switch must produce a counterexample.  Bound to the code three ways: (1) random sequential
+operations on a real skip list whose nodes hold three long string keys, with the node structure read back
+from the real pages after every call and compared with the specification's state (levels, forward
+entries, update counters); (2) the schedule of the model's "page id handed out again" counterexample
+replayed on the real list through a gate hook, judged as a call history by MultimapHistoryTrace;
+(3) the concurrent histories above."""
 import os, collections
 import vlib
 from vlib import Inconclusive
@@ -19,6 +29,59 @@ from . import register
 from .common import judge, count_events
 
 FAM = "Multimap"
+SL = "SkipList"
+
+
+def skiplist_mechanism(ctx, thorough):
+    """L1 SkipList: design-level model checking + conformance of the real container."""
+    out = dict()
+    for cfg in ["MC_2t.cfg", "MC_pre.cfg", "MC_3t.cfg"] + (["MC_pre_all.cfg", "MC_seq.cfg", "MC_2t_big.cfg"] if thorough else []):
+        r = vlib.model_check(ctx, SL, "MC", cfg, workers=14, timeout=3000, jvm=("-Xmx12g",))
+        out[cfg] = r["distinct"]
+    # sensitivity: the switches that stand for the repaired defect (KF-C17-skiplist-page-id-reuse) and for the
+    # counter protocol itself must each break an invariant
+    sens = [("MC_pre_zero.cfg", "new nodes start at counter 0"), ("MC_pre_stale.cfg", "fetch of an evicted removed page reads the file")]
+    if thorough:
+        sens += [("MC_pre_noval.cfg", "counters are not compared"), ("MC_pre_nobump.cfg", "a removed node keeps its counter")]
+    for cfg, what in sens:
+        r = vlib.tlc(ctx, SL, "MC", cfg, workers=14, timeout=1800, name="sens-" + cfg[:-4])
+        if "Invariant StructureOK is violated" not in r["out"] and "Invariant NoError is violated" not in r["out"]:
+            raise Inconclusive("SkipList %s (%s) no longer fails: the design model lost its sensitivity\n%s" % (cfg, what, r["out"][-1500:]))
+    # (1) structure conformance of sequential operations
+    tr = os.path.join(ctx.work, "sl-seq.ndjson")
+    vlib.vdrive_resumable(ctx, ["sl", "seq", tr, 400 if thorough else 24, 120 if thorough else 80], tr, timeout=2000)
+    res = vlib.validate(ctx, SL, "SkipListTrace", "Trace.cfg", tr, name="val-sl-seq", timeout=3000)
+    judge(ctx, res, tr, "skip list container, sequential (L1 structure conformance)")
+    mech = collections.Counter(v["tag"] for v in res["viol"] if v["tag"].startswith("mech."))
+    ops = collections.Counter()
+    splits = removals = 0
+    prev = None
+    for e in vlib.read_ndjson(tr):
+        if e["ev"] == "SlOp":
+            ops[e["op"]] += 1
+            n = len(e.get("nodes", []))
+            if prev is not None and n > prev:
+                splits += 1
+            if prev is not None and n < prev and n > 0:
+                removals += 1
+            prev = n
+        else:
+            prev = len(e.get("nodes", []))
+    if splits == 0 or removals == 0 or min(ops[k] for k in ("ins", "rem", "get", "scan")) == 0:
+        raise Inconclusive("vacuous skip list conformance: splits %d, node removals %d, ops %s" % (splits, removals, dict(ops)))
+    # (2) replay of the model's counterexample schedule (page id of a removed node handed out again / read back from
+    # the file) on the real list; a violation on it is the repaired defect come back
+    ab = os.path.join(ctx.work, "sl-aba.ndjson")
+    vlib.vdrive(ctx, ["sl", "aba", ab, 6 if thorough else 2], timeout=600)
+    res2 = vlib.validate(ctx, FAM, "MultimapHistoryTrace", "History.cfg", ab, name="val-sl-aba",
+                         env={"JAVA_TOOL_OPTIONS": "-Dtlc2.tool.queue.IStateQueue=StateDeque"}, timeout=1200)
+    for v in res2["viol"]:
+        v["kf"] = "KF-C17-skiplist-page-id-reuse"
+    judge(ctx, res2, ab, "replay of the model's schedule: a Remove re-validates <page id, counter> of a node removed meanwhile")
+    replays = sum(1 for e in vlib.read_ndjson(ab) if e["ev"] == "Reset")
+    return dict(model_states=out, sequential_ops=dict(ops), node_splits=splits, node_removals=removals,
+                structure_divergences=dict(mech), schedule_replays=replays)
+
 
 
 @register("C17")
@@ -62,6 +125,7 @@ def check(ctx):
     for k in ("ins", "del", "point", "scan"):
         if conc[k] == 0:
             raise Inconclusive("vacuous: no concurrent %s" % k)
+    slcov = skiplist_mechanism(ctx, thorough)
     c = count_events(tr)
     kinds = collections.Counter()
     maxlive = 0
@@ -79,8 +143,10 @@ def check(ctx):
         states=ctx.states, transitions=ctx.transitions, traces_validated_against_impl=ctx.traces,
         samples=ctx.samples, exhaustive=False, events=dict(c),
         probes_by_kind_and_key_type={"%s/%s" % k: v for k, v in kinds.items()}, largest_full_scan=maxlive,
-        concurrent_calls=dict(conc),
+        concurrent_calls=dict(conc), skiplist_mechanism=slcov,
         events_validated=ctx.events),
         ["concurrent windows: Go scheduling is sampled (seeds x GOMAXPROCS 4 / 16), 4 goroutines x 40 operations per window; order from one shared atomic counter",
          "unique kinds are driven with at most one row id per key; hash index: point operations only",
-         "TLC trace validation against Multimap"])
+         "TLC trace validation against Multimap",
+         "SkipList (L1): 2-3 threads, 4-5 keys, node capacity 3, 2 levels, at most 4 nodes; removed pages stay readable until their frame is evicted; pins are not modelled; the concurrent latch protocol itself is bound to the code by the sequential structure conformance, the schedule replay and the concurrent histories, not by latch-level traces",
+         "skip list conformance runs on long string keys only (three entries per node); overwriting an existing key is outside the container's contract and not driven"])
